@@ -142,6 +142,18 @@ def name_family(draw, n_min=2, n_max=6, absolute=True, suffix=None):
         while wire_len(labs) > 254:
             labs.pop(0)
         names.append(labs + ([b""] if absolute else []))
+    if draw(st.integers(0, 2)) == 0:
+        # a boundary twin of one of the names: same octets, same number of labels, one label
+        # boundary moved by an octet (ab.c <-> a.bc) -- a different name that any flattened
+        # comparison or hash confuses with the original
+        src = draw(st.sampled_from(names))
+        real = [l for l in src if l != b""]
+        cand = [i for i in range(len(real) - 1) if len(real[i]) >= 2 and len(real[i + 1]) <= 62]
+        if cand:
+            i = draw(st.sampled_from(cand))
+            tw = list(real)
+            tw[i], tw[i + 1] = real[i][:-1], real[i][-1:] + real[i + 1]
+            names.append([flip_case(draw, l) for l in tw] + ([b""] if absolute else []))
     return names
 
 
